@@ -1,6 +1,37 @@
 """Property -> rules map.  `quick` rules run in both tiers; `thorough` adds the rest."""
 
 PROPS = {
+    "C12": {
+        "quick": ["R-TRANSPOSE-PAIR", "R-EINSUM-VJP", "R-SCATTER"],
+        "thorough": [],
+        "technique": "static einsum subscript algebra and gather/scatter role comparison of sibling operators",
+        "claim": "Decides the structural clause 'NodalOperation is the transpose of ElementOperation': the response "
+                 "contraction of each is the sensitivity contraction of the other (same subscripts up to letter "
+                 "renaming, same roles of element matrix and data), the gather/scatter index attributes swap roles, "
+                 "scatters through the connectivity accumulate, and each class's own sensitivity contraction is the VJP "
+                 "of its response. Exactness on affine fields, centroid values, and the Strain/Stress shear scaling are "
+                 "numeric and not decided here (R-CONSTIT in the thorough tier of DESIGN.md is recorded separately).",
+        "explanation": "Literal einsum specifications are parsed, canonicalised modulo bijective renaming with the data "
+                       "operand in a fixed position, and compared across ElementOperation/NodalOperation.",
+    },
+    "C01": {
+        "quick": ["R-ARITY", "R-NULL-SEED", "R-ADJ-TRANS", "R-SCATTER", "R-INDEX-PAIR", "R-EINSUM-VJP", "R-FRESH",
+                  "R-EFF-SEED"],
+        "thorough": ["R-CONV-PAIR", "R-FILTER-ORDER", "R-CLONE-OVERHANG"],
+        "technique": "static response/sensitivity agreement rules: arity tables, nullness dataflow, call-site facts, "
+                     "index provenance, einsum subscript algebra, attribute typestate",
+        "claim": "Decides necessary structural conditions of the adjoint identity for every Module subclass: value/seed "
+                 "and input/result counts agree on every return path; partially seeded outputs (None) are never "
+                 "dereferenced unguarded (interprocedural); every adjoint solve is transposed; stores through index "
+                 "tables with repeats accumulate (np.add.at); gather and scatter index attributes of response and "
+                 "sensitivity mirror each other; literal einsum contractions of the sensitivity are the VJP of the "
+                 "response's; what _sensitivity reads is what this _response wrote; seeds are not mutated; (thorough) "
+                 "convolution/correlation and normalisation order of the filters pair up and the duplicated overhang "
+                 "sweep set-up agrees. A wrong factor or sign inside a formula (numeric) is not decided.",
+        "explanation": "Per concrete Module subclass (39 classes, all options at once, including the modules the suite "
+                       "never touches): rules compare resolved facts of the _response closure with those of the "
+                       "_sensitivity closure.",
+    },
     "C05": {
         "quick": ["R-SOLVER-SIG", "R-TRANS-EXH", "R-EFF-SOLVE", "R-AUTO-GUARD"],
         "thorough": [],
